@@ -86,6 +86,12 @@ def run(tier):
                 w = rng.choice([3, 5, 17, 64, 257, 1021])
                 st = {"kind": "periodic", "period": [rng.choice([rng.randrange(256), 0x55, 0x0f, 0xaa, 0x33]) for _ in range(w)], "len": -1}
             tj.append(wf.mk_single(jid, nb, stream=st, policy=rng.choice(["full", "fixed", "one", "random"]), size=11, rseed=jid, tag="len"))
+    # large requests in which one byte value occurs 2^16 times or more (pattern counts beyond 16 bits), constant or nearly so
+    for nb in [65535, 65536, 65537, 70000, 131072] + ([262144, 1048576] if thorough else []):
+        for per in ([rng.randrange(256)], [0x5A] * 15 + [rng.randrange(256)], [0xFF] * 31 + [rng.randrange(256), rng.randrange(256)]):
+            jid += 1
+            tj.append(wf.mk_single(jid, nb, stream={"kind": "periodic", "period": per, "len": -1},
+                                   policy=rng.choice(["full", "fixed", "random"]), size=4093, rseed=jid, tag="dominated"))
     rng.shuffle(tj)     # call histories: growing and shrinking requests in one process
     rows, crashed = vlib.run_hz_jobs(hz, "workflow", tj, nproc=8)
     if crashed:
